@@ -1,6 +1,7 @@
 import BSModel.Proofs.Formatter
 import BSModel.Proofs.FormatterBuild
 import BSModel.Proofs.FormatterPopulate
+import BSModel.Proofs.FormatterHidden
 import BSModel.Gen.FormatterHtml5
 import BSModel.Gen.Formatter
 /-! # C15 — formatter options take effect and output is deterministic
@@ -803,5 +804,35 @@ example := output_is_function_of_tree_and_configuration BS.Gen.htmlAlts.reverse 
 example := populate_order_irrelevant_live (fun a => { a with notNext := a.notNext.reverse }) (fun _ => rfl) (fun _ => rfl)
   (fun _ _ => List.mem_reverse) _ (List.reverse_perm _) [8810, 824, 8810, 8402]
 example := populate_exclusive tinyTable [] (tableOKChk_sound _ (by decide))
+
+/-! ## trees with user-hidden tags (`tag.hidden = True`) -/
+
+/-- On a tree without hidden tags the model with hidden tags is the model above, for every output method. -/
+theorem hidden_free_refinement (c : Cfg) (i : Subst → PStr → PStr) (m : Mode) (par : Option PStr) (n : Node) :
+    renderModeH c i m par (HNode.ofNode n) = renderMode c i m par n := renderModeH_ofNode c i m par n
+
+/-- A hidden tag writes nothing of its own; its contents are written as if they stood one level deeper (string-literal mode
+    switched on if the hidden tag preserves whitespace); and what follows it is written at the level it would have without
+    the hidden tag — the hidden tag opens and closes exactly one level. -/
+theorem hidden_tag_is_transparent (c : Cfg) (i : Subst → PStr → PStr) (lv : Nat) (lit : Bool) (par : Option PStr)
+    (n p : PStr) (as : List (PStr × AttrVal)) (cbe pre : Bool) (k : HNode) (ks rest : List HNode) :
+    renderHL c i par (.tag true n p as cbe pre (k :: ks) :: rest) = renderHL c i (some n) (k :: ks) ++ renderHL c i par rest ∧
+    prettyItemsHL c i lv lit par (.tag true n p as cbe pre (k :: ks) :: rest)
+      = prettyItemsHL c i (lv + 1) (lit || pre) (some n) (k :: ks) ++ prettyItemsHL c i lv lit par rest ∧
+    prettyItemsHL c i lv lit par (.tag true n p as true pre [] :: rest) = prettyItemsHL c i lv lit par rest := by
+  refine ⟨?_, ?_, ?_⟩ <;> simp [renderHL, renderH, prettyItemsHL, prettyItemsH]
+
+/-- No line of a pretty-printed element is indented less deep than the level the element was printed at, whatever hidden
+    tags it contains (the level counter never falls below its starting value). -/
+theorem indentation_survives_hidden_tags (c : Cfg) (i : Subst → PStr → PStr) (lv : Nat) (lit : Bool) (par : Option PStr)
+    (n : HNode) : ∀ d ∈ indDepths (prettyItemsH c i lv lit par n), lv ≤ d := indDepths_ge c i lv lit par n
+
+/-- `<div><span hidden><b>x</b></span><i>y</i></div>`, the span hidden, unit `--`: `<i>` stays at depth 1 -/
+example :
+    renderModeH (mkHTMLFormatter { indent := .str [45, 45] }) builtin (.pretty 0) none
+      (.tag false [100, 105, 118] [] [] false false
+        [.tag true [115] [] [([97], .str [49])] false false [.tag false [98] [] [] false false [.str .text [120]]],
+         .tag false [105] [] [] false false [.str .text [121]]])
+    = .ok (ofS "<div>\n----<b>\n------x\n----</b>\n--<i>\n----y\n--</i>\n</div>\n") := by decide +kernel
 
 end BS.Props.C15
